@@ -367,6 +367,12 @@ pub fn run(tier: Tier) -> i32 {
     // builtins on documents of extreme numeric magnitude
     {
         let docs = [json!([1e308, 1e308]), json!([-1e308, -1e308, -1e308]), json!([u64::MAX, u64::MAX]), json!([i64::MIN, -1]), json!([5e-324, 5e-324]), json!([1e308, -1e308, 1e308]), json!(1e308), json!(u64::MAX), json!(i64::MIN), json!({"a": 1e308, "b": -1e308}), json!([[1e308], [1e308]]), json!(["1e999", "-1e999", "1e308"])];
+        let m = 64usize;
+        let close: Vec<f64> = (0..m).map(|i| 1.0 + (i as f64) * f64::EPSILON).collect();
+        let mut docs: Vec<Value> = docs.to_vec();
+        docs.push(Value::Array(close.iter().rev().map(|x| json!(x)).collect()));
+        docs.push(Value::Array((0..m).map(|i| json!(close[(i * 7) % m])).collect()));
+        docs.push(Value::Array((0..500).map(|i| json!(1.0 + (((i * 37) % 500) as f64) * f64::EPSILON)).collect()));
         let calls = ["sum(@)", "avg(@)", "max(@)", "min(@)", "sort(@)", "abs(@)", "ceil(@)", "floor(@)", "to_string(@)", "to_number(@)", "sum(*)", "avg(*)", "sum([])", "sum(@[])", "map(&abs(@), @)", "map(&to_number(@), @)", "sum(map(&to_number(@), @))", "sort_by(@, &@)", "max_by(@, &@)", "abs(sum(@))", "ceil(avg(@))", "length(to_string(@))", "@[0] < @[1]", "sum(@) == avg(@)", "join(',', map(&to_string(@), @))"];
         for d in &docs {
             let rc = value_to_var(d);
